@@ -110,7 +110,15 @@ class State():
     def send_message(self, msg: Type[DiameterMessage] = None) -> None:
         if msg is not None:
             self.association.put_message_into_send_queue(msg)
-        self.association.send_message_from_queue()
+
+        #: A single call hands over at most SEND_BUFFER_MAXIMUM_SIZE bytes. 
+        #: Everything queued so far (this message last) goes to the 
+        #: transport now, otherwise a DPR queued behind a backlog would 
+        #: never be written: Closing does not flush the queue.
+        for _ in range(max(1, self.association._send_messages.qsize())):
+            self.association.send_message_from_queue()
+            if self.association._send_messages.empty():
+                break
 
 
     def get_message(self):
